@@ -224,6 +224,10 @@ func IsValidOperationsTreeWithManifest(tr fixedtree.Tree, ops []Operation, manif
 	case tr.Len() != n:
 		return e.Errorf("number does not match")
 	case n < 1:
+		if manifest.OperationsTree() != nil {
+			return e.Errorf("empty operations, but manifest has operations tree")
+		}
+
 		return nil
 	}
 
@@ -269,6 +273,10 @@ func IsValidStatesTreeWithManifest(tr fixedtree.Tree, sts []State, manifest Mani
 	case tr.Len() != n:
 		return e.Errorf("number does not match")
 	case n < 1:
+		if manifest.StatesTree() != nil {
+			return e.Errorf("empty states, but manifest has states tree")
+		}
+
 		return nil
 	}
 
